@@ -62,6 +62,8 @@ type Ver struct {
 	// Fail makes this version unappliable on top of its (valid) fields: "<sub-syncer>:<how>", see failKinds. The fields
 	// underneath stay valid, so clearing Fail is "repair only the failing field, keep every other change".
 	Fail string `json:"unappliable,omitempty"`
+	// Client selects the client connection settings (gateway's own token, QPS/burst) of this version
+	Client int `json:"clientSettings,omitempty"`
 }
 
 func (v *Ver) clone() *Ver {
@@ -120,7 +122,14 @@ func (v *Ver) Build(m *material) *proxyv1alpha1.UpstreamCluster {
 	case "endpoint-first": // as above, and the create path already fails while building the REST config
 		c.Spec.Servers = append([]proxyv1alpha1.UpstreamClusterServer{{Endpoint: how}}, c.Spec.Servers...)
 	}
-	c.Spec.ClientConfig.BearerToken = []byte("gw-token")
+	// client connection settings: fixed when the cluster is first created and excepted from the comparison; versions
+	// change them nevertheless - everything else must still converge
+	c.Spec.ClientConfig.BearerToken = []byte(fmt.Sprintf("gw-token-%d", v.Client))
+	if v.Client%3 == 1 {
+		c.Spec.ClientConfig.QPS, c.Spec.ClientConfig.Burst = 50, 100
+	} else if v.Client%3 == 2 {
+		c.Spec.ClientConfig.QPS, c.Spec.ClientConfig.Burst, c.Spec.ClientConfig.QPSDivisor = 200, 400, 2
+	}
 	c.Spec.ClientConfig.Insecure = true
 	switch {
 	case v.Ann == "nil":
